@@ -33,39 +33,21 @@ approximation with the continuity correction `sign(d)·max(|d| − ½, 0)` of th
 against the share `r/(1+r)`. -/
 theorem analyze_eq_textbook (P : Prims α) (binomtest : α → α → α → α) (cfg : SRCfg α) (c t : α) :
     SampleRatio.analyze P binomtest cfg c t = sampleRatioTest P binomtest cfg c t := by
+  -- written against the MEANING of the generated definition, not its shape: every `if` of the generated
+  -- code and of the specification is case-split, so `if/elif`, nested or conditional-expression forms of the
+  -- same computation all go through
   obtain ⟨ratio, method, correction⟩ := cfg
   have hn : t + c - t = c := by ring
-  have key : ∀ r : α,
-      (if method = "binom" ∨ (method = "auto" ∧ t + c < 1000) then
-          ({ control := t + c - t, treatment := t, pvalue := binomtest t (t + c) (r / (1 + r)) } : SRResult α)
-        else if correction = true ∧ t - (t + c) * (r / (1 + r)) ≠ 0 then
-          { control := t + c - t, treatment := t,
-            pvalue := 2 * (P.norm 0).sf |(if t - (t + c) * (r / (1 + r)) < 0
-                then min (t - (t + c) * (r / (1 + r)) + 1 / 2) 0
-                else max (t - (t + c) * (r / (1 + r)) - 1 / 2) 0)
-              / P.sqrt ((t + c) * (r / (1 + r)) * (1 - r / (1 + r)))| }
-        else
-          { control := t + c - t, treatment := t,
-            pvalue := 2 * (P.norm 0).sf |(t - (t + c) * (r / (1 + r)))
-              / P.sqrt ((t + c) * (r / (1 + r)) * (1 - r / (1 + r)))| })
-      = { control := c, treatment := t,
-          pvalue := if method = "binom" ∨ (method = "auto" ∧ t + c < 1000) then binomtest t (t + c) (r / (1 + r))
-            else 2 * (P.norm 0).sf |correctedDeviation correction (t - (t + c) * (r / (1 + r)))
-              / P.sqrt ((t + c) * (r / (1 + r)) * (1 - r / (1 + r)))| } := by
-    intro r
-    rw [hn]
-    by_cases hb : method = "binom" ∨ (method = "auto" ∧ t + c < 1000)
-    · simp only [hb, if_true]
-    · simp only [hb, if_false]
-      by_cases hc : correction = true
-      · by_cases hd : t - (t + c) * (r / (1 + r)) = 0
-        · simp [hc, hd, correctedDeviation]
-        · simp only [hc, hd, ne_eq, not_false_eq_true, and_self, if_true, correction_form]
-      · have hc' : correction = false := by simpa using hc
-        simp [hc', correctedDeviation]
-  cases ratio with
-  | scalar r => exact key r
-  | mapping rt rc => exact key (rt / rc)
+  have hneg : ∀ d : α, d < 0 → min (d + 1 / 2) 0 = correctedDeviation true d := fun d h => by
+    rw [← correction_form, if_pos h]
+  have hpos : ∀ d : α, ¬ d < 0 → max (d - 1 / 2) 0 = correctedDeviation true d := fun d h => by
+    rw [← correction_form, if_neg h]
+  have hzero : ∀ b : Bool, correctedDeviation b (0 : α) = 0 := fun b => by
+    cases b <;> simp [correctedDeviation]
+  have hfalse : ∀ d : α, correctedDeviation false d = d := fun d => by simp [correctedDeviation]
+  cases ratio <;> cases correction <;>
+  · simp only [SampleRatio.analyze, sampleRatioTest, zStat, expectedShare, ratioValue, hn, correction_form]
+    split_ifs <;> simp_all
 
 /-- the true control and treatment counts are reported -/
 theorem counts_reported (P : Prims α) (binomtest : α → α → α → α) (cfg : SRCfg α) (c t : α) :
